@@ -213,7 +213,7 @@ def history(k, thr):
 
 HARNESSES = {
     "step": {"make": step, "witness_every": 5,
-             "jobs": lambda tier: [{"gates": [GateLogic.AND]}] if tier == "quick" else [{"gates": [g]} for g in GATES],
+             "jobs": lambda tier: [{"gates": [GateLogic.AND]}, {"gates": [GateLogic.OR]}] if tier == "quick" else [{"gates": [g]} for g in GATES],
              "clauses": ["C08.a", "C08.a-isolated", "C08.a-energy", "C08.b", "C08.c", "C08.d", "C08.d-count", "C08.e", "C08.f", "C08.inv"]},
     "history": {"make": history, "witness_every": 9,
                 "jobs": lambda tier: ([{"k": 4, "thr": 1}, {"k": 5, "thr": 2}] if tier == "quick" else
@@ -228,7 +228,7 @@ META = {
         "technique": "symbolic execution of loops.py run/_check_circuit/_record_* with symbolic clock and counters; z3 per path; reference breaker automaton as oracle",
     },
     "files": ["operon_ai/topology/loops.py"],
-    "bounds": {"quick": {"step": "gate AND; threshold 1..64 symbolic; counters <= 2^16; clock symbolic; all 7x7 verdict pairs; cache on/off with/without an entry", "history": "k<=5 actions (run/advance below/advance above timeout/reset), thresholds 1,2"},
+    "bounds": {"quick": {"step": "gates AND and OR; threshold 1..64 symbolic; counters <= 2^16; clock symbolic; all 7x7 verdict pairs; cache on/off with/without an entry", "history": "k<=5 actions (run/advance below/advance above timeout/reset), thresholds 1,2"},
                "thorough": {"step": "all 6 gate logics", "history": "k<=6 actions, thresholds 1..3 (k=7 is ~10x larger per threshold and does not finish within the budget on 16 cores)"}},
     "outside": ["time passing inside a call", "symbolic recovery timeout (fixed 60 s)", "on_block/on_permit callbacks", "truncated-hash collisions of the cache key"],
     "float_argument": "none: timedelta comparisons are exact integer millisecond comparisons",
